@@ -84,11 +84,14 @@ class _ObjectFamily(object):
         self.latest_version = None
 
     def add(self, obj):
-        self.all_versions[obj["modified"]] = obj
-        if (
+        # (Compare first: if the two "modified" values are not comparable,
+        # nothing has been added yet.)
+        is_latest = (
             self.latest_version is None or
             obj["modified"] >= self.latest_version["modified"]
-        ):
+        )
+        self.all_versions[obj["modified"]] = obj
+        if is_latest:
             self.latest_version = obj
 
     def __str__(self):
